@@ -154,6 +154,81 @@ username user1@example.com attributes
  service-type remote-access
  vpn-idle-timeout 60
 `),
+		// two NEW dynamic entries while the device's map exists and its top numbers are taken:
+		// the dynamic counter has to go DOWN after each number handed out
+		mk("two-new-dynamic-entries", `
+crypto dynamic-map gone0@example.com 20 set pfs
+crypto map crypto-outside 1 set peer 10.0.0.1
+crypto map crypto-outside 65535 ipsec-isakmp dynamic gone0@example.com
+crypto map crypto-outside interface outside
+`, `
+crypto dynamic-map name1@example.com 20 set pfs
+crypto dynamic-map name2@example.com 20 set pfs group5
+crypto dynamic-map name3@example.com 20 set nat-t-disable
+crypto map crypto-outside 1 set peer 10.0.0.1
+crypto map crypto-outside 65533 ipsec-isakmp dynamic name3@example.com
+crypto map crypto-outside 65534 ipsec-isakmp dynamic name2@example.com
+crypto map crypto-outside 65535 ipsec-isakmp dynamic name1@example.com
+crypto map crypto-outside interface outside
+`),
+		mk("three-new-dynamic-entries-free-top", `
+crypto map crypto-outside 1 set peer 10.0.0.1
+crypto map crypto-outside interface outside
+`, `
+crypto dynamic-map name1@example.com 20 set pfs
+crypto dynamic-map name2@example.com 20 set pfs group5
+crypto dynamic-map name3@example.com 20 set nat-t-disable
+crypto map crypto-outside 1 set peer 10.0.0.1
+crypto map crypto-outside 65533 ipsec-isakmp dynamic name3@example.com
+crypto map crypto-outside 65534 ipsec-isakmp dynamic name2@example.com
+crypto map crypto-outside 65535 ipsec-isakmp dynamic name1@example.com
+crypto map crypto-outside interface outside
+`),
+		// an LDAP server group with three hosts on the device (Netspoc writes one `host X` line); a map-value is new
+		mk("ldap-server-group-with-three-hosts", `
+group-policy VPN-ldap-0-DRC-0 internal
+group-policy VPN-ldap-0-DRC-0 attributes
+ vpn-idle-timeout 60
+crypto ca certificate map ca-map-1-DRC-0 10
+ subject-name attr ea co @sub1.example.com
+aaa-server LDAP1 protocol ldap
+aaa-server LDAP1 (inside) host 10.2.8.16
+ ldap-base-dn DC=example,DC=com
+ ldap-attribute-map LDAPMAP1
+aaa-server LDAP1 (inside) host 10.2.8.17
+ ldap-base-dn DC=example,DC=com
+ ldap-attribute-map LDAPMAP1
+aaa-server LDAP1 (inside) host 10.2.8.18
+ ldap-base-dn DC=example,DC=com
+ ldap-attribute-map LDAPMAP1
+ldap attribute-map LDAPMAP1
+ map-name memberOf Group-Policy
+ map-value memberOf "CN=g-m0,OU=VPN,DC=example,DC=com" VPN-ldap-0-DRC-0
+tunnel-group VPN-tunnel-1-DRC-0 type remote-access
+tunnel-group VPN-tunnel-1-DRC-0 general-attributes
+ authentication-server-group LDAP1
+tunnel-group-map ca-map-1-DRC-0 10 VPN-tunnel-1-DRC-0
+`, `
+group-policy VPN-ldap-0 internal
+group-policy VPN-ldap-0 attributes
+ vpn-idle-timeout 60
+group-policy VPN-ldap-1 internal
+group-policy VPN-ldap-1 attributes
+ vpn-idle-timeout 30
+crypto ca certificate map ca-map-1 10
+ subject-name attr ea co @sub1.example.com
+aaa-server LDAP1 protocol ldap
+aaa-server LDAP1 host X
+ ldap-attribute-map LDAPMAP1
+ldap attribute-map LDAPMAP1
+ map-name memberOf Group-Policy
+ map-value memberOf "CN=g-m0,OU=VPN,DC=example,DC=com" VPN-ldap-0
+ map-value memberOf "CN=g-m1,OU=VPN,DC=example,DC=com" VPN-ldap-1
+tunnel-group VPN-tunnel-1 type remote-access
+tunnel-group VPN-tunnel-1 general-attributes
+ authentication-server-group LDAP1
+tunnel-group-map ca-map-1 10 VPN-tunnel-1
+`),
 		// the target has no VPN part at all: everything is removed in an order the device accepts
 		mk("everything-removed", `
 access-list vpn-filter-DRC-0 extended permit ip host 10.3.4.1 10.1.1.0 255.255.255.0
